@@ -3,18 +3,20 @@ package props
 import (
 	"fmt"
 	"sort"
+	"strings"
 
 	"verif/internal/an"
+	"verif/internal/flow"
 )
 
 func init() {
 	register(&Property{
-		ID:        "C05",
-		Technique: "static analysis: agreement of record-type tables between writer and the four readers, dominance/path search (CRC validation before a record is returned; repair offset captured before the failing decode), guard implication by truth table (bounded overwrite, size limit before allocation)",
+		ID:          "C05",
+		Technique:   "static analysis: agreement of record-type tables between writer and the four readers, dominance/path search (CRC validation before a record is returned; repair offset captured before the failing decode), guard implication by truth table (bounded overwrite, size limit before allocation)",
 		Explanation: "Decides shape conditions of the WAL codec and readers: (R1) the record types written anywhere in package wal equal the case labels handled by ReadAll (default = error), Verify handles the same set, ValidSnapshotEntries/Repair handle frozen subsets that always include the CRC record; (R2) every non-CRC record returned by decodeRecord passed the rolling-CRC validation, each reader's CRC case validates against the running CRC unless it is 0 and chains it with updateCRC, the encoder stamps the running CRC after feeding the data, cut chains the new segment with the previous CRC; (R3) the sync policy (same obligations as C03-P3); (R4) index-overwrite on re-read is bounded and loud, the torn-tail zero-fill happens only on EOF at the decoder's last valid offset, Repair truncates at the offset captured before the failing decode and fsyncs; (R5) the record size is bounded before allocation. R4 also: moving to the next segment resets the valid-offset count. R3 also: the hard-state record is written after the entries of the same Save, and the previous state is consulted for the sync decision before saveState replaces it.",
-		NotDecided: "that reopening returns exactly a durable prefix for every truncation offset and zero-fill pattern (needs execution), isTornEntry sector arithmetic, page-writer alignment, bit-flip detection probability of CRC32.",
+		NotDecided:  "that reopening returns exactly a durable prefix for every truncation offset and zero-fill pattern (needs execution), isTornEntry sector arithmetic, page-writer alignment, bit-flip detection probability of CRC32.",
 		Assumptions: []string{"calls to Panic*/Fatal* do not return", "path conditions are conjunctions of dominating branch conditions"},
-		Run: runC05,
+		Run:         runC05,
 	})
 }
 
@@ -50,7 +52,7 @@ func runC05(c *Ctx) {
 		}{
 			{"wal.(*WAL).ReadAll", nil, true},
 			{"wal.Verify", nil, true},
-			{"wal.ValidSnapshotEntries", []string{"wal.entryType", "wal.metadataType"}, false}, // reason: only snapshot markers, commit index and the CRC chain matter for listing valid snapshots
+			{"wal.ValidSnapshotEntries", []string{"wal.entryType", "wal.metadataType"}, false},                        // reason: only snapshot markers, commit index and the CRC chain matter for listing valid snapshots
 			{"wal.Repair", []string{"wal.entryType", "wal.metadataType", "wal.stateType", "wal.snapshotType"}, false}, // reason: repair only walks the frames and keeps the CRC chain
 		}
 		for _, rd := range readers {
@@ -90,7 +92,9 @@ func runC05(c *Ctx) {
 			{Name: "error", Match: an.ErrorReturn},
 			{Name: "recursion into the next segment", Match: an.LastResultCall("wal.(*decoder).decodeRecord")},
 			{Name: "record accepted", Match: an.LastResultNil},
-			{Name: "read error passed on", Match: func(u *an.Unit, s *an.Site) bool { return len(s.Ret.Results) == 1 && u.C.Term(s.Ret.Results[0]) == "err" }},
+			{Name: "read error passed on", Match: func(u *an.Unit, s *an.Site) bool {
+				return len(s.Ret.Results) == 1 && u.C.Term(s.Ret.Results[0]) == "err"
+			}},
 		}, 8)
 		// R5
 		// moving on to the next segment file restarts the valid-offset count: lastOffset() is relative to the last file
@@ -148,6 +152,22 @@ func runC05(c *Ctx) {
 		app := an.LocalStore("ents").Where("append", func(u *an.Unit, s *an.Site) bool { return s.RHS != nil })
 		r.Guard("C05-R4", u, app, "recv.start.Index < e.Index && !(uint64(len(r2)) < e.Index - recv.start.Index - 1)", an.GuardOpts{Min: 1})
 		r.StoreValues("C05-R4", u, app, []string{"append(r2[:((e.Index - recv.start.Index) - 1)], e)"}, 1)
+		// the stale tail is cleared to the END of the file (ZeroToEnd, here or in a helper of package wal called from here):
+		// clearing only some pages leaves old frames behind a torn record, which a later reopen takes for valid entries
+		hasZero := len(u.Match(an.Call("pkg/fileutil.ZeroToEnd"))) > 0
+		if !hasZero {
+			for _, s := range u.Sites {
+				if s.Kind == flow.SCall && s.Callee != nil && strings.HasPrefix(an.CalleeName(s), "wal.") {
+					if hu, err := c.W.Unit(an.CalleeName(s)); err == nil && len(hu.Match(an.Call("pkg/fileutil.ZeroToEnd"))) > 0 {
+						hasZero = true
+					}
+				}
+			}
+		}
+		r.Check("C05-R4", u.Name+": in write mode the tail after the last valid record is zeroed to the end of the file", "", hasZero, "no call of fileutil.ZeroToEnd on the repair path")
+		if !hasZero {
+			return
+		}
 		r.Order("C05-R4", u, an.Call("pkg/fileutil.ZeroToEnd"), []an.M{an.Edge("r3 == io.EOF")}, an.OrderOpts{Min: 1})
 		r.Order("C05-R4", u, an.Call("pkg/fileutil.ZeroToEnd"), []an.M{an.Call("os.(*File).Seek")}, an.OrderOpts{Success: an.NilErr, Min: 1})
 		r.ArgValues("C05-R4", u, an.Call("os.(*File).Seek"), 0, []string{"recv.decoder.lastOffset()"}, 1)
